@@ -14,6 +14,10 @@
 #include "util/NetworkUtilityFunctions.h"  // for IPAddressAndPort
 #include "util/OutputPrinter.h"
 #include "util/String.h"
+#ifdef MUSCLE_VERIF_HOOKS
+# include "system/VerifHooks.h"
+extern "C" {int (*muscle_verif_hook)(int kind, const void * obj, long arg) = 0;}  // the one definition of the verification-hook pointer (NULL = hooks inert)
+#endif
 
 #if defined(__GNUC__)
 # include <cxxabi.h>  // for abi::__cxa_demangle()
